@@ -45,12 +45,16 @@ def extra_configs(tier):
                     out.append({"test": "betting_mart", "estim": None, "bet": "agrapa",
                                 "kw": {"lam": lam, "c_grapa_0": c0, "c_grapa_max": cm, "c_grapa_grow": gr},
                                 "u": u, "t": t, "N": N, "H": H, "k": k, "ro": True})
+    # initial bets above 1/t: the default lam = 1/2 with a large null mean, and a user-supplied large lam
+    for N, H, k in shapes[:2]:
+        out.append({"test": "betting_mart", "estim": None, "bet": "agrapa", "kw": {}, "u": "8", "t": "4", "N": N, "H": H, "k": k, "ro": True})
+        out.append({"test": "betting_mart", "estim": None, "bet": "agrapa", "kw": {"lam": "3"}, "u": "1", "t": "1/2", "N": N, "H": H, "k": k, "ro": True})
     return out
 
 
 def all_configs(tier):
     base = [c for c in s1.configs(tier) if c["test"] in ("alpha_mart", "betting_mart", "wald_sprt")]
-    return base + extra_configs(tier)
+    return base + extra_configs(tier) + s1.nd_configs(tier)
 
 
 def bounds(tier):
